@@ -37,6 +37,6 @@ def _k(fn, secs, bounds, tier="quick"):
 OBLIGATIONS += [
     _k("kget_value_forms", 115, "unbounded repeats; x <= 25, y <= 98: 'B3' vs (1,2) vs 4-tuple vs negative form for get_value/get_cell"),
     _k("kget_area_negative_cols", 80, "cell-runs in 1..2: negative column numbers in 4-tuple areas and column ranges"),
-    _k("kget_area_negative_rows", 400, "row-runs in 1..2: negative row numbers in 4-tuple areas for get_values/get_cells/get_rows", "thorough"),
+    _k("kget_area_negative_rows", 150, "row-runs in 1..2: negative row numbers (and negative last column) in 4-tuple areas for get_values/get_cells/get_rows"),
     _k("kget_columns_range_small", 20, "cell-runs in 1..2: a column range bounds get_columns on both sides"),
 ]
